@@ -68,13 +68,23 @@ func (ts *Timers) withMap(x interface{}) error {
 	if err != nil {
 		return err
 	}
-	if err = json.Unmarshal(js, &ts.Map); err != nil {
+	// Build the entries afresh and replace the Map: the given
+	// timers are the pending timers from now on (not merged into
+	// those we had), and entries that a running goroutine still
+	// holds are not written to.  Such a goroutine finds, when its
+	// time comes, that the entry under its id isn't its own any
+	// more and does nothing.
+	m := make(map[string]*TimerEntry, 8)
+	if err = json.Unmarshal(js, &m); err != nil {
 		return err
 	}
-	for _, te := range ts.Map {
+	for _, te := range m {
 		te.timers = ts
 		te.Ctl = make(chan bool)
 	}
+	ts.Lock()
+	ts.Map = m
+	ts.Unlock()
 
 	return nil
 }
